@@ -204,6 +204,14 @@ def _show(t, d=0):
         return 'λ'
     if k == 'partial':
         return f'partial({_show(t[1], d + 1)}, …)'
+    if k == 'cfg':
+        return 'cfg(' + ', '.join(f'{a}{"=" if a not in ("*", "**") else ""}{_show(b, d + 1)}' for a, b in t[1]) + ')'
+    if k == 'adapter':
+        return f'adapter<{_show(t[1], d + 1)}>'
+    if k == 'adaptercls':
+        return f'adapter_type<{_show(t[1], d + 1)}>'
+    if k == 'adapterargs':
+        return f'adapter_args<{_show(t[1], d + 1)}>'
     return repr(t)
 
 
@@ -442,7 +450,9 @@ class Evaluator:
                 di = i - (len(params_rest) - ndef)
                 full_index = (len(params) - len(params_rest)) + i
                 di = full_index - (len(params) - ndef)
-                if star_rest is not None:
+                if entry:
+                    env.vars[p] = ('const', self.modes[p]) if p in self.modes and isinstance(self.modes[p], bool) and False else ('param', p)
+                elif star_rest is not None:
                     env.vars[p] = ('elem', star_rest)
                 elif dstar is not None:
                     env.vars[p] = alt(('sub', dstar, ('const', p)), self._default(posdefaults, di, fi, defenv))
@@ -463,7 +473,7 @@ class Evaluator:
             elif dstar is not None:
                 dv = self.ev(d, defenv, _FCtx(fi, fi.module)) if d is not None else None
                 env.vars[p.arg] = alt(('sub', dstar, ('const', p.arg)), dv)
-            elif d is not None:
+            elif d is not None and not entry:
                 env.vars[p.arg] = self.ev(d, defenv, _FCtx(fi, fi.module))
             else:
                 env.vars[p.arg] = ('param', p.arg)
@@ -911,6 +921,8 @@ class Evaluator:
         b = base[0]
         if base == BOTTOM:
             return BOTTOM
+        if b == 'dict' and not base[1]:
+            return BOTTOM
         if b == 'dict' and k[0] == 'const':
             for a, v in base[1]:
                 if a == k:
@@ -1121,6 +1133,14 @@ class Evaluator:
             return self.inline(fi, args, kwargs, f[1], None, site=site)
         if k == 'func':
             fi = self.func_by_key.get(f[1])
+            if f[1].endswith('utils/adapters.py::from_config'):
+                cfg = ('cfg', tuple((k if k is not None else '**', v) for k, v in kwargs) + tuple(('*', a) for a in args))
+                return ('seq', 'tuple', (('adaptercls', cfg), ('adapterargs', cfg)))
+            if f[1].endswith('utils/__init__.py::as_completed') and args:
+                # yields the awaited result of each task (keys of the mapping / elements)
+                return ('gen', self.elem_of(args[0]))
+            if f[1].endswith('utils/__init__.py::async_gen_wrapper') and args:
+                return ('gen', self.elem_of(args[0]))
             return self.inline(fi, args, kwargs, None, None, site=site)
         if k == 'closure':
             fi = self.func_by_key.get(f[1])
@@ -1140,6 +1160,8 @@ class Evaluator:
             return self.apply(f[1], list(f[2]) + list(args), list(f[3]) + list(kwargs), site, node, env, fctx)
         if k == 'class':
             return self.construct(f, args, kwargs, site)
+        if k == 'adaptercls':
+            return ('adapter', f[1])
         if k == 'name':
             r = self.builtin(f[1], args, kwargs, site, node, env, fctx)
             if r is not None:
@@ -1347,6 +1369,12 @@ class Evaluator:
             if t[1] in self.nonnull:
                 return False
             return None
+        if k == 'adapter':
+            return False
+        if k == 'attr' and t[2] in ('private', 'cipher', 'userkey', 'authenticator', 'shared_kdf') and self.modes.get('encrypted') is True:
+            ci = self.class_of(t[1])
+            if ci is not None and ci.name == 'RepositoryProps':
+                return False
         if k == 'call':
             f = t[1]
             if f[0] == 'name' and f[1] in ('set', 'list', 'dict', 'tuple', 'bytes', 'str', 'int', 'len', 'max', 'min', 'sorted', 'threading.Lock', 'threading.Event', 'io.BytesIO'):
